@@ -205,7 +205,7 @@ static void cat_cpc(std::vector<Entry>& out) {
     for (int i = 1; i <= k.n; i++) s.update((int64_t)IV((long long)i * 1000003));
     cpc_sketch t = s;
     if (k.merged) { cpc_union u((uint8_t)k.lgk, k.seed); u.update(s); t = u.get_result(); }
-    CpcKnown kn{k.seed, k.merged};
+    CpcKnown kn{k.seed, k.merged && k.n > 0};   // the result of an empty union is a fresh (never merged) empty sketch
     Entry e; e.family = "cpc"; e.kind = k.kind; e.name = "cpc_" + e.kind; e.hints = "{}";
     auto b = t.serialize(); e.bytes.assign(b.begin(), b.end());
     e.proj = proj_cpc(t, kn);
